@@ -478,3 +478,425 @@ Proof.
     + specialize (Hhigh ltac:(lia)). exfalso. apply Hne.
       assert (Heq : ival b * d = ival (B + 1) * d) by lia. nia.
 Qed.
+
+(* ---------- R4: the overflow threshold ---------- *)
+Lemma thresh_eq : 2 ^ 1024 - 2 ^ 970 = (2 * p53 - 1) * 2 ^ 970.
+Proof. vm_compute. reflexivity. Qed.
+
+Theorem round_mag_overflow n d :
+  0 < n -> 0 < d ->
+  (round_mag n d = inf_bits <-> (2 ^ 1024 - 2 ^ 970) * d <= n).
+Proof.
+  intros Hn Hd. rewrite thresh_eq.
+  destruct (round_mag_spec n d Hn Hd) as (e & [He Hq] & Hrm).
+  pose proof (scale_den_pos d e Hd) as Hdd.
+  pose proof (rnd_cases (scale_num n e) (scale_den d e) Hdd) as Hr. cbv zeta in Hr.
+  pose proof (Z.div_mod (scale_num n e) (scale_den d e) ltac:(lia)) as Hdm.
+  pose proof (Z.mod_pos_bound (scale_num n e) (scale_den d e) Hdd) as Hmod.
+  pose proof p52_pos as Hp. pose proof p53_eq as Hp53. pose proof inf_bits_eq as Hinf.
+  pose proof (pow2_pos 970 ltac:(lia)) as HP.
+  rewrite Hrm. clear Hrm.
+  set (q' := rnd (scale_num n e) (scale_den d e)) in *.
+  set (q := scale_num n e / scale_den d e) in *.
+  set (r := scale_num n e mod scale_den d e) in *.
+  assert (Hqq : q <= q' <= q + 1) by lia.
+  destruct (Z_le_gt_dec 972 e) as [Hbig | Hnb].
+  - (* both sides hold *)
+    assert (Hnorm : p52 <= q < p53) by lia.
+    split; intros _.
+    + unfold scale_num, scale_den in Hdm. destruct (Z.ltb_spec e 0) as [Hneg | Hpos]; [lia |].
+      assert (Hpow : 4 * 2 ^ 970 <= 2 ^ e).
+      { change 4 with (2 ^ 2). rewrite <- Z.pow_add_r by lia. apply Z.pow_le_mono_r; lia. }
+      revert Hpow Hdm HP. fold q r. generalize (2 ^ 970) (2 ^ e). intros P E Hpow Hdm HP.
+      assert (H1 : p52 * (d * E) <= n) by nia.
+      assert (H2 : p52 * (d * (4 * P)) <= p52 * (d * E)) by nia.
+      nia.
+    + apply Z.min_l. nia.
+  - destruct (Z.eq_dec e 971) as [He971 | Hne].
+    + subst e.
+      assert (Hnn : scale_num n 971 = n) by reflexivity.
+      assert (Hden : scale_den d 971 = 2 * (d * 2 ^ 970)).
+      { change (scale_den d 971) with (d * 2 ^ (970 + 1)). rewrite Z.pow_add_r by lia. rewrite Z.pow_1_r. lia. }
+      assert (Hnorm : p52 <= q < p53) by lia.
+      rewrite Hnn, Hden in *.
+      revert Hdd Hdm Hmod Hr HP. generalize (2 ^ 970). intros P Hdd Hdm Hmod Hr HP.
+      set (dd := 2 * (d * P)) in *.
+      replace ((2 * p53 - 1) * P * d) with ((2 * p53 - 1) * (d * P)) by ring.
+      split.
+      * intros Hmin. assert (Hq' : p53 <= q') by lia.
+        destruct Hr as [(Hr1 & Hr2 & Hr3) | (Hr1 & Hr2 & Hr3)]; [lia |].
+        assert (Hqe : q = p53 - 1) by lia.
+        assert (H2n : 2 * n = 2 * q * dd + 2 * r) by lia.
+        assert (H3 : (2 * q + 1) * dd <= 2 * n) by lia.
+        rewrite Hqe in H3. unfold dd in H3. nia.
+      * intros Hth. apply Z.min_l.
+        assert (H2n : (2 * p53 - 1) * dd <= 2 * n) by (unfold dd; nia).
+        assert (Hqe : q = p53 - 1).
+        { assert (Hlt : 2 * n < 2 * (q + 1) * dd) by nia.
+          destruct (Z_le_gt_dec (p53 - 1) q) as [Hok | Hbad]; [lia |].
+          assert (Hb2 : 2 * (q + 1) * dd <= (2 * p53 - 2) * dd) by nia. nia. }
+        assert (Hr2 : dd <= 2 * r).
+        { assert (Hx : 2 * n = (2 * p53 - 2) * dd + 2 * r) by (rewrite Hqe in Hdm; nia). nia. }
+        destruct Hr as [(Hr1 & Hr2' & Hr3) | (Hr1 & Hr2' & Hr3)]; [| lia].
+        exfalso. assert (Hodd : q mod 2 = 0) by (apply Hr3; lia). rewrite Hqe, Hp53 in Hodd. clear - Hodd. Z.div_mod_to_equations. lia.
+    + (* both sides fail *)
+      assert (He970 : e <= 970) by lia.
+      assert (Hqlt : q < p53) by lia.
+      assert (Hnn : scale_num n e < p53 * scale_den d e) by nia.
+      split.
+      * intros Hmin. exfalso.
+        assert (Hle : (e + 1074) * p52 + q' <= 2046 * p52) by nia. lia.
+      * intros Hth. exfalso.
+        unfold scale_num, scale_den in Hnn. destruct (Z.ltb_spec e 0) as [Hneg | Hpos].
+        -- pose proof (pow2_pos (- e) ltac:(lia)) as HE.
+           revert Hnn HE Hth HP. generalize (2 ^ (- e)) (2 ^ 970). intros E P Hnn HE Hth HP.
+           assert (H1 : n <= n * E) by nia.
+           assert (H2 : p53 * d <= (2 * p53 - 1) * P * d) by nia. lia.
+        -- assert (Hpow : 2 ^ e <= 2 ^ 970) by (apply Z.pow_le_mono_r; lia).
+           pose proof (pow2_pos e Hpos) as HE.
+           revert Hnn HE Hth HP Hpow. generalize (2 ^ e) (2 ^ 970). intros E P Hnn HE Hth HP Hpow.
+           assert (HdE : d * E <= d * P) by nia.
+           assert (H2a : p53 * (d * E) <= p53 * (d * P)) by (apply Z.mul_le_mono_nonneg_l; lia).
+           assert (HdP : 0 <= d * P) by nia.
+           assert (H2b : p53 * (d * P) <= (2 * p53 - 1) * (d * P)) by (apply Z.mul_le_mono_nonneg_r; lia).
+           lia.
+Qed.
+
+(* ---------- R5: exactness and monotonicity, integer form ---------- *)
+Lemma ival_max : ival (inf_bits - 1) = (p53 - 1) * 2 ^ 2045.
+Proof.
+  pose proof p52_pos. pose proof p53_eq. pose proof inf_bits_eq.
+  replace (inf_bits - 1) with (2045 * p52 + (p53 - 1)) by lia.
+  apply ival_enc; lia.
+Qed.
+
+Lemma max_below_thresh : (p53 - 1) * 2 ^ 2045 < (2 ^ 1024 - 2 ^ 970) * S1074.
+Proof. vm_compute. reflexivity. Qed.
+
+Lemma finite_below_thresh n d b :
+  0 < n -> 0 < d -> 0 <= b < inf_bits -> n * S1074 = ival b * d -> round_mag n d < inf_bits.
+Proof.
+  intros Hn Hd Hb Hex.
+  pose proof (round_mag_range n d Hn Hd) as Hrange.
+  destruct (Z.eq_dec (round_mag n d) inf_bits) as [Hinf | Hne]; [| lia].
+  exfalso. apply (round_mag_overflow n d Hn Hd) in Hinf.
+  pose proof (ival_le b (inf_bits - 1) ltac:(lia)) as Hle. rewrite ival_max in Hle.
+  pose proof max_below_thresh as Hlt. pose proof S1074_pos as HS.
+  revert Hinf Hlt Hle. generalize (2 ^ 1024 - 2 ^ 970) ((p53 - 1) * 2 ^ 2045). intros T M Hinf Hlt Hle.
+  assert (H1 : T * d * S1074 <= n * S1074) by nia.
+  assert (H2 : ival b * d <= M * d) by nia.
+  assert (H3 : M * d < T * S1074 * d) by nia.
+  lia.
+Qed.
+
+Lemma round_mag_exact_Z n d b :
+  0 < n -> 0 < d -> 0 <= b < inf_bits -> n * S1074 = ival b * d -> round_mag n d = b.
+Proof.
+  intros Hn Hd Hb Hex.
+  pose proof (finite_below_thresh n d b Hn Hd Hb Hex) as Hfin.
+  pose proof (round_mag_range n d Hn Hd) as Hrange.
+  pose proof (round_mag_nearest_Z n d Hn Hd Hfin b ltac:(lia)) as Hnear.
+  apply ival_inj; [lia | lia |].
+  assert (Heq : ival (round_mag n d) * d = ival b * d) by lia. nia.
+Qed.
+
+Theorem round_mag_monotone n1 d1 n2 d2 :
+  0 < n1 -> 0 < d1 -> 0 < n2 -> 0 < d2 ->
+  n1 * d2 <= n2 * d1 -> round_mag n1 d1 <= round_mag n2 d2.
+Proof.
+  intros Hn1 Hd1 Hn2 Hd2 Hle.
+  pose proof (round_mag_range n1 d1 Hn1 Hd1) as Hr1.
+  pose proof (round_mag_range n2 d2 Hn2 Hd2) as Hr2.
+  destruct (Z.eq_dec (round_mag n2 d2) inf_bits) as [Hi2 | Hf2]; [lia |].
+  destruct (Z.eq_dec (round_mag n1 d1) inf_bits) as [Hi1 | Hf1].
+  { exfalso. apply Hf2. apply round_mag_overflow; [assumption | assumption |].
+    apply (round_mag_overflow n1 d1 Hn1 Hd1) in Hi1.
+    revert Hi1. generalize (2 ^ 1024 - 2 ^ 970). intros T Hi1.
+    assert (H1 : T * d1 * d2 <= n1 * d2) by nia.
+    assert (H2 : T * d2 * d1 <= n2 * d1) by lia. nia. }
+  destruct (Z_le_gt_dec (round_mag n1 d1) (round_mag n2 d2)) as [Hok | Hbad]; [exact Hok | exfalso].
+  set (R1 := round_mag n1 d1) in *. set (R2 := round_mag n2 d2) in *.
+  pose proof S1074_pos as HS.
+  pose proof (ival_lt R2 R1 ltac:(lia)) as Hi.
+  pose proof (round_mag_nearest_Z n1 d1 Hn1 Hd1 ltac:(lia) R2 ltac:(lia)) as Hnear1. fold R1 in Hnear1.
+  pose proof (round_mag_nearest_Z n2 d2 Hn2 Hd2 ltac:(lia) R1 ltac:(lia)) as Hnear2. fold R2 in Hnear2.
+  assert (Hx : ival R2 * d1 < ival R1 * d1) by nia.
+  assert (Hy : ival R2 * d2 < ival R1 * d2) by nia.
+  assert (Hm1 : (ival R1 + ival R2) * d1 <= 2 * (n1 * S1074)) by lia.
+  assert (Hm2 : 2 * (n2 * S1074) <= (ival R1 + ival R2) * d2) by lia.
+  assert (Hc1 : (ival R1 + ival R2) * d1 * d2 <= 2 * (n1 * S1074) * d2) by nia.
+  assert (Hc2 : 2 * (n2 * S1074) * d1 <= (ival R1 + ival R2) * d2 * d1) by nia.
+  assert (Hc3 : n1 * d2 * S1074 <= n2 * d1 * S1074) by nia.
+  assert (He1 : (ival R1 + ival R2) * d1 * d2 = 2 * (n1 * S1074) * d2) by lia.
+  assert (He2 : 2 * (n2 * S1074) * d1 = (ival R1 + ival R2) * d2 * d1) by lia.
+  assert (Hmid1 : (ival R1 + ival R2) * d1 = 2 * (n1 * S1074)) by nia.
+  assert (Hmid2 : 2 * (n2 * S1074) = (ival R1 + ival R2) * d2) by nia.
+  (* both are ties, so both results are even *)
+  assert (Hev1 : R1 mod 2 = 0).
+  { apply (round_mag_ties_even_Z n1 d1 Hn1 Hd1 ltac:(fold R1; lia) R2 ltac:(lia)); fold R1; lia. }
+  assert (Hev2 : R2 mod 2 = 0).
+  { apply (round_mag_ties_even_Z n2 d2 Hn2 Hd2 ltac:(fold R2; lia) R1 ltac:(lia)); fold R2; lia. }
+  (* hence R2 + 1 < R1, and R2 + 1 is strictly nearer to n1/d1 than R1 *)
+  assert (Hgap : R2 + 1 < R1) by (clear - Hev1 Hev2 Hbad; Z.div_mod_to_equations; lia).
+  pose proof (ival_lt R2 (R2 + 1) ltac:(lia)) as Hi3.
+  pose proof (ival_lt (R2 + 1) R1 ltac:(lia)) as Hi4.
+  pose proof (round_mag_nearest_Z n1 d1 Hn1 Hd1 ltac:(fold R1; lia) (R2 + 1) ltac:(lia)) as Hnear3.
+  fold R1 in Hnear3.
+  assert (Hz1 : ival R2 * d1 < ival (R2 + 1) * d1) by nia.
+  assert (Hz2 : ival (R2 + 1) * d1 < ival R1 * d1) by nia.
+  lia.
+Qed.
+
+(* ---------- from integers to rationals ---------- *)
+Definition S1074p : positive := Z.to_pos S1074.
+Lemma S1074p_eq : Z.pos S1074p = S1074.
+Proof. unfold S1074p. apply Z2Pos.id, S1074_pos. Qed.
+
+Lemma pow2_shift k : 0 <= k -> (pow2 (k - 1074) == 2 ^ k # S1074p)%Q.
+Proof.
+  intros Hk. unfold pow2. destruct (Z.leb_spec 0 (k - 1074)) as [Hge | Hlt].
+  - unfold Qeq, inject_Z. cbn [Qnum Qden]. rewrite S1074p_eq, S1074_eq.
+    rewrite <- Z.pow_add_r by lia. rewrite Z.mul_1_r. f_equal. lia.
+  - unfold Qeq. cbn [Qnum Qden]. rewrite S1074p_eq, S1074_eq.
+    rewrite Z2Pos.id by (apply pow2_pos; lia).
+    rewrite <- Z.pow_add_r by lia. rewrite Z.mul_1_l. f_equal. lia.
+Qed.
+
+Lemma Qmult_inject_frac a b p : (inject_Z a * (b # p) == a * b # p)%Q.
+Proof. unfold Qeq, Qmult, inject_Z. cbn [Qnum Qden]. rewrite Pos.mul_1_l. reflexivity. Qed.
+
+(* mag_value b is ival b / 2^1074 *)
+Lemma mag_value_ival b y : 0 <= b -> mag_value b = Some y -> (y == ival b # S1074p)%Q.
+Proof.
+  intros Hb Hmv. unfold mag_value in Hmv. destruct (b <? inf_bits); [| discriminate].
+  cbv zeta in Hmv. injection Hmv as <-. unfold ival.
+  pose proof p52_pos as Hp.
+  assert (Hq : 0 <= b / p52) by (apply Z.div_pos; lia).
+  destruct (Z.eqb_spec (b / p52) 0) as [Hz | Hnz].
+  - change (-1074) with (0 - 1074). rewrite (pow2_shift 0) by lia. rewrite Z.pow_0_r.
+    rewrite Qmult_inject_frac. rewrite Z.mul_1_r. reflexivity.
+  - replace (b / p52 - 1075) with (b / p52 - 1 - 1074) by lia.
+    rewrite (pow2_shift (b / p52 - 1)) by lia.
+    rewrite Qmult_inject_frac. reflexivity.
+Qed.
+
+Lemma mag_value_some b : b < inf_bits -> exists y, mag_value b = Some y.
+Proof.
+  intros Hb. unfold mag_value. destruct (Z.ltb_spec b inf_bits) as [_ | Hge]; [| lia].
+  eexists. reflexivity.
+Qed.
+
+Lemma mag_value_none b : inf_bits <= b -> mag_value b = None.
+Proof.
+  intros Hb. unfold mag_value. destruct (Z.ltb_spec b inf_bits) as [Hlt | _]; [lia | reflexivity].
+Qed.
+
+Lemma Qdist n dp i sp :
+  (Qabs ((n # dp) - (i # sp)) == Z.abs (n * Z.pos sp - i * Z.pos dp) # (dp * sp))%Q.
+Proof.
+  unfold Qminus, Qplus, Qopp, Qabs. cbn [Qnum Qden].
+  replace (n * Z.pos sp + - i * Z.pos dp) with (n * Z.pos sp - i * Z.pos dp) by ring.
+  reflexivity.
+Qed.
+
+Lemma dpos d : 0 < d -> Z.pos (Z.to_pos d) = d.
+Proof. intros Hd. apply Z2Pos.id, Hd. Qed.
+
+(* mag_value is strictly increasing: consecutive bit patterns are consecutive doubles *)
+Theorem mag_value_lt a b x y :
+  0 <= a < b -> mag_value a = Some x -> mag_value b = Some y -> (x < y)%Q.
+Proof.
+  intros Hab Hx Hy.
+  rewrite (mag_value_ival a x ltac:(lia) Hx), (mag_value_ival b y ltac:(lia) Hy).
+  unfold Qlt. cbn [Qnum Qden]. apply Z.mul_lt_mono_pos_r; [reflexivity |]. apply ival_lt; lia.
+Qed.
+
+(* R2 *)
+Theorem round_mag_nearest n d :
+  0 < n -> 0 < d -> round_mag n d < inf_bits ->
+  forall b, 0 <= b < inf_bits ->
+  forall x y, mag_value (round_mag n d) = Some x -> mag_value b = Some y ->
+    (Qabs ((n # Z.to_pos d) - x) <= Qabs ((n # Z.to_pos d) - y))%Q.
+Proof.
+  intros Hn Hd Hfin b Hb x y Hx Hy.
+  pose proof (round_mag_range n d Hn Hd) as Hrange.
+  rewrite (mag_value_ival (round_mag n d) x ltac:(lia) Hx), (mag_value_ival b y ltac:(lia) Hy).
+  rewrite !Qdist. unfold Qle. cbn [Qnum Qden].
+  rewrite S1074p_eq, (dpos d Hd).
+  apply Z.mul_le_mono_nonneg_r; [lia |].
+  apply round_mag_nearest_Z; lia.
+Qed.
+
+(* R3 *)
+Theorem round_mag_ties_even n d :
+  0 < n -> 0 < d -> round_mag n d < inf_bits ->
+  forall b, 0 <= b < inf_bits ->
+  forall x y, mag_value (round_mag n d) = Some x -> mag_value b = Some y ->
+    ~ (y == x)%Q ->
+    (Qabs ((n # Z.to_pos d) - x) == Qabs ((n # Z.to_pos d) - y))%Q ->
+    (round_mag n d) mod 2 = 0.
+Proof.
+  intros Hn Hd Hfin b Hb x y Hx Hy Hne Htie.
+  pose proof (round_mag_range n d Hn Hd) as Hrange.
+  pose proof (mag_value_ival (round_mag n d) x ltac:(lia) Hx) as Hxi.
+  pose proof (mag_value_ival b y ltac:(lia) Hy) as Hyi.
+  apply (round_mag_ties_even_Z n d Hn Hd Hfin b ltac:(lia)).
+  - intros Heq. apply Hne. rewrite Hxi, Hyi, Heq. reflexivity.
+  - rewrite Hxi, Hyi in Htie. rewrite !Qdist in Htie. unfold Qeq in Htie. cbn [Qnum Qden] in Htie.
+    rewrite S1074p_eq, (dpos d Hd) in Htie.
+    apply Z.mul_cancel_r in Htie; [exact Htie | lia].
+Qed.
+
+(* R5 *)
+Theorem round_mag_exact n d b y :
+  0 < n -> 0 < d -> 0 <= b < inf_bits ->
+  mag_value b = Some y -> (y == n # Z.to_pos d)%Q -> round_mag n d = b.
+Proof.
+  intros Hn Hd Hb Hy Heq.
+  rewrite (mag_value_ival b y ltac:(lia) Hy) in Heq.
+  unfold Qeq in Heq. cbn [Qnum Qden] in Heq. rewrite S1074p_eq, (dpos d Hd) in Heq.
+  apply round_mag_exact_Z; [assumption | assumption | assumption | lia].
+Qed.
+
+Corollary round_mag_monotone_Q n1 d1 n2 d2 :
+  0 < n1 -> 0 < n2 -> (n1 # d1 <= n2 # d2)%Q -> round_mag n1 (Z.pos d1) <= round_mag n2 (Z.pos d2).
+Proof.
+  intros Hn1 Hn2 Hle. unfold Qle in Hle. cbn [Qnum Qden] in Hle.
+  apply round_mag_monotone; try assumption; reflexivity.
+Qed.
+
+(* the result depends only on the rational, not on the fraction representing it *)
+Corollary round_mag_ratio n1 d1 n2 d2 :
+  0 < n1 -> 0 < d1 -> 0 < n2 -> 0 < d2 ->
+  n1 * d2 = n2 * d1 -> round_mag n1 d1 = round_mag n2 d2.
+Proof.
+  intros Hn1 Hd1 Hn2 Hd2 He.
+  pose proof (round_mag_monotone n1 d1 n2 d2 Hn1 Hd1 Hn2 Hd2 ltac:(lia)).
+  pose proof (round_mag_monotone n2 d2 n1 d1 Hn2 Hd2 Hn1 Hd1 ltac:(lia)). lia.
+Qed.
+
+(* ---------- link with f_decode: mag_value is the value f_decode assigns ---------- *)
+Lemma decode_mag neg b :
+  0 <= b < inf_bits ->
+  exists m e, f_decode (with_sign neg b) = FFin neg m e /\
+              mag_value b = Some (inject_Z m * pow2 e)%Q.
+Proof.
+  intros Hb. pose proof p52_pos as Hp. pose proof inf_bits_eq as Hinf. pose proof p63_eq as Hp63.
+  unfold f_decode, with_sign. cbv zeta.
+  set (b' := if neg then b + p63 else b).
+  assert (Hb' : 0 <= b') by (unfold b'; destruct neg; lia).
+  rewrite Z2N.id by exact Hb'.
+  assert (Hs : f_sign b' = neg).
+  { unfold f_sign, b'. destruct neg; [apply Z.leb_le; lia | apply Z.leb_gt; lia]. }
+  assert (Hm : f_mag b' = b).
+  { unfold f_mag, b'. destruct neg.
+    - symmetry. apply Z.mod_unique_pos with (q := 1); lia.
+    - apply Z.mod_small; lia. }
+  rewrite Hs, Hm.
+  assert (Hex : b / p52 < 2047) by (apply Z.div_lt_upper_bound; lia).
+  destruct (Z.eqb_spec (b / p52) 2047) as [Hbad | _]; [lia |].
+  unfold mag_value. destruct (Z.ltb_spec b inf_bits) as [_ | Hge]; [| lia]. cbv zeta.
+  destruct (Z.eqb_spec (b / p52) 0) as [Hz | Hnz]; eexists; eexists; split; reflexivity.
+Qed.
+
+Lemma decode_inf neg : f_decode (with_sign neg inf_bits) = FInf neg.
+Proof. destruct neg; vm_compute; reflexivity. Qed.
+
+(* end to end: f_of_ratio yields the nearest double, or infinity from the threshold on *)
+Theorem f_of_ratio_correct neg n d :
+  0 < n -> 0 < d ->
+  ((2 ^ 1024 - 2 ^ 970) * d <= n /\ f_decode (f_of_ratio neg n d) = FInf neg) \/
+  (n < (2 ^ 1024 - 2 ^ 970) * d /\
+   exists m e, f_decode (f_of_ratio neg n d) = FFin neg m e /\
+     forall b y, 0 <= b < inf_bits -> mag_value b = Some y ->
+       (Qabs ((n # Z.to_pos d) - inject_Z m * pow2 e) <= Qabs ((n # Z.to_pos d) - y))%Q).
+Proof.
+  intros Hn Hd. unfold f_of_ratio.
+  pose proof (round_mag_range n d Hn Hd) as Hrange.
+  pose proof (round_mag_overflow n d Hn Hd) as Hov.
+  destruct (Z.eq_dec (round_mag n d) inf_bits) as [Hinf | Hfin].
+  - left. split; [apply Hov; exact Hinf |]. rewrite Hinf. apply decode_inf.
+  - right. split.
+    + destruct (Z_lt_le_dec n ((2 ^ 1024 - 2 ^ 970) * d)) as [Hlt | Hge]; [exact Hlt |].
+      exfalso. apply Hfin. apply Hov. exact Hge.
+    + destruct (decode_mag neg (round_mag n d) ltac:(lia)) as (m & e & Hdec & Hmv).
+      exists m, e. split; [exact Hdec |].
+      intros b y Hb Hy. apply (round_mag_nearest n d Hn Hd ltac:(lia) b Hb _ y Hmv Hy).
+Qed.
+
+(* every positive integer below 2^53 is a double *)
+Lemma int_is_double z :
+  0 < z < p53 -> exists b, 0 <= b < inf_bits /\ ival b = z * S1074.
+Proof.
+  intros Hz. pose proof p52_pos as Hp. pose proof p53_eq as Hp53. pose proof inf_bits_eq as Hinf.
+  destruct (Z.log2_spec z ltac:(lia)) as [Hlo Hhi].
+  pose proof (Z.log2_nonneg z) as Ha.
+  assert (Ha52 : Z.log2 z < 53).
+  { apply Z.log2_lt_pow2; [lia |]. replace (2 ^ 53) with p53 by reflexivity. lia. }
+  set (a := Z.log2 z) in *.
+  assert (Hm : p52 <= z * 2 ^ (52 - a) < p53).
+  { assert (H52 : p52 = 2 ^ a * 2 ^ (52 - a)).
+    { rewrite p52_eq. rewrite <- Z.pow_add_r by lia. f_equal. lia. }
+    assert (H53 : p53 = 2 ^ Z.succ a * 2 ^ (52 - a)).
+    { replace p53 with (2 ^ 53) by reflexivity. rewrite <- Z.pow_add_r by lia. f_equal. lia. }
+    pose proof (pow2_pos (52 - a) ltac:(lia)) as HP.
+    rewrite H52 at 1. rewrite H53.
+    split; [apply Z.mul_le_mono_nonneg_r; lia | apply Z.mul_lt_mono_pos_r; lia]. }
+  exists ((a + 1022) * p52 + z * 2 ^ (52 - a)). split; [nia |].
+  rewrite ival_enc by lia.
+  rewrite S1074_eq. replace 1074 with (52 - a + (a + 1022)) at 1 by lia.
+  rewrite (Z.pow_add_r 2 (52 - a) (a + 1022)) by lia. rewrite Z.mul_assoc. reflexivity.
+Qed.
+
+(* u64 -> f64 conversion is exact below 2^53 *)
+Theorem f_of_N_exact n :
+  Z.of_N n < 2 ^ 53 ->
+  exists m e, f_decode (f_of_N n) = FFin false m e /\
+              (inject_Z m * pow2 e == inject_Z (Z.of_N n))%Q.
+Proof.
+  intros Hlt. replace (2 ^ 53) with p53 in Hlt by reflexivity. unfold f_of_N.
+  pose proof (N2Z.is_nonneg n) as Hnn. pose proof S1074_pos as HS.
+  assert (Hb : exists b, 0 <= b < inf_bits /\ ival b = Z.of_N n * S1074 /\ round_mag (Z.of_N n) 1 = b).
+  { destruct (Z.eq_dec (Z.of_N n) 0) as [Hz | Hnz].
+    - exists 0. rewrite Hz. split; [split; [lia | reflexivity] |]. split; reflexivity.
+    - destruct (int_is_double (Z.of_N n) ltac:(lia)) as (b & Hb & Hi).
+      exists b. split; [exact Hb |]. split; [exact Hi |].
+      apply round_mag_exact_Z; lia. }
+  destruct Hb as (b & Hb & Hi & ->).
+  destruct (decode_mag false b Hb) as (m & e & Hdec & Hmv).
+  exists m, e. split; [exact Hdec |].
+  rewrite (mag_value_ival b _ ltac:(lia) Hmv). rewrite Hi.
+  unfold Qeq, inject_Z. cbn [Qnum Qden]. rewrite S1074p_eq. ring.
+Qed.
+
+(* ---------- known values ---------- *)
+Example ex_tenth : round_mag 1 10 = 4591870180066957722.        (* 0.1 = 0x3FB999999999999A *)
+Proof. vm_compute. reflexivity. Qed.
+Example ex_two64 : round_mag (2 ^ 64) 1 = 4895412794951729152.  (* 2^64 = 0x43F0000000000000 *)
+Proof. vm_compute. reflexivity. Qed.
+Example ex_underflow : round_mag 1 (10 ^ 400) = 0.
+Proof. vm_compute. reflexivity. Qed.
+Example ex_overflow : round_mag (10 ^ 400) 1 = inf_bits.
+Proof. vm_compute. reflexivity. Qed.
+Example ex_tie_down : round_mag (2 ^ 53 + 1) 1 = round_mag (2 ^ 53) 1 /\ round_mag (2 ^ 53) 1 = 4845873199050653696.
+Proof. vm_compute. split; reflexivity. Qed.
+Example ex_tie_up : round_mag (2 ^ 53 + 3) 1 = round_mag (2 ^ 53 + 4) 1 /\ round_mag (2 ^ 53 + 4) 1 = 4845873199050653698.
+Proof. vm_compute. split; reflexivity. Qed.
+Example ex_min_subnormal : round_mag 1 (2 ^ 1074) = 1 /\ round_mag 1 (2 ^ 1075) = 0 /\ round_mag 3 (2 ^ 1075) = 2.
+Proof. vm_compute. repeat split; reflexivity. Qed.
+Example ex_max_finite :
+  round_mag (2 ^ 1024 - 2 ^ 970 - 1) 1 = inf_bits - 1 /\ round_mag (2 ^ 1024 - 2 ^ 970) 1 = inf_bits.
+Proof. vm_compute. split; reflexivity. Qed.
+Example ex_mag_value_one : mag_value 4607182418800017408 = Some (inject_Z p52 * pow2 (-52))%Q.  (* 1.0 *)
+Proof. vm_compute. reflexivity. Qed.
+
+Print Assumptions round_mag_range.
+Print Assumptions round_mag_nearest.
+Print Assumptions round_mag_ties_even.
+Print Assumptions round_mag_overflow.
+Print Assumptions round_mag_exact.
+Print Assumptions round_mag_monotone.
+Print Assumptions round_mag_ratio.
+Print Assumptions mag_value_lt.
+Print Assumptions f_of_ratio_correct.
+Print Assumptions f_of_N_exact.
